@@ -16,8 +16,6 @@ import (
 	"github.com/prometheus/common/model"
 	"github.com/prometheus/prometheus/config"
 
-	"tkestack.io/kvass/pkg/utils/types"
-
 	"github.com/prometheus/prometheus/discovery/targetgroup"
 	"github.com/prometheus/prometheus/scrape"
 )
@@ -182,16 +180,20 @@ func targetHash(lbls labels.Labels, url string) uint64 {
 // but populateLabels will add all config param into labels
 // must delete them from label set
 func labelsWithoutConfigParam(lbls labels.Labels, param url.Values) labels.Labels {
-	key := make([]string, 0, len(param))
-	for k := range param {
-		key = append(key, model.ParamLabelPrefix+k)
-	}
-
 	newlbls := labels.Labels{}
 	for _, l := range lbls {
-		if !types.FindString(l.Name, key...) {
-			newlbls = append(newlbls, l)
+		if strings.HasPrefix(l.Name, model.ParamLabelPrefix) {
+			if vs, ok := param[strings.TrimPrefix(l.Name, model.ParamLabelPrefix)]; ok {
+				if len(vs) > 0 && vs[0] == l.Value {
+					// same as the job's own param: the generated job sets it again
+					continue
+				}
+				// relabeling gave this target its own value: the generated job would overwrite it with the job's
+				// param, so it is shipped under the prefix that the generated job's labelmap rule strips afterwards
+				l.Name = target.PrefixForInvalidLabelName + l.Name
+			}
 		}
+		newlbls = append(newlbls, l)
 	}
 	return newlbls
 }
